@@ -273,6 +273,8 @@ impl<'a> Run<'a> {
         if self.updated.read().contains(module.as_ref()) {
             return
         }
+        #[cfg(routinator_verif)]
+        verif_c37::point("checked1");
 
         // Get a clone of the (arc-ed) mutex. Make a new one if there isn’t
         // yet.
@@ -281,13 +283,19 @@ impl<'a> Run<'a> {
             .entry(module.clone().into_owned()).or_default()
             .clone()
         };
+        #[cfg(routinator_verif)]
+        verif_c37::got_mutex(&mutex);
         
         // Acquire the mutex. Once we have it, see if the module is up-to-date
         // which happens if someone else had it first.
         let _lock = mutex.lock();
+        #[cfg(routinator_verif)]
+        verif_c37::point("locked");
         if self.updated.read().contains(module.as_ref()) {
             return
         }
+        #[cfg(routinator_verif)]
+        verif_c37::point("unchecked2");
 
         let mut log = LogBookWriter::new(
             self.collector.log_repository_issues.then(|| {
@@ -303,11 +311,15 @@ impl<'a> Run<'a> {
         }
         else {
             // Run the actual update.
+            #[cfg(routinator_verif)]
+            verif_c37::fetch("start", module.as_ref());
             let metrics = command.update(
                 module.as_ref(),
                 &self.collector.working_dir.module_path(module.as_ref()),
                 log
             );
+            #[cfg(routinator_verif)]
+            verif_c37::fetch("end", module.as_ref());
 
             // Insert into updated map and metrics.
             self.metrics.lock().push(metrics);
@@ -317,9 +329,13 @@ impl<'a> Run<'a> {
         // removing from running or a thread arriving in between will update
         // the module again.
         self.updated.write().insert(module.clone().into_owned());
+        #[cfg(routinator_verif)]
+        verif_c37::point("inserted");
 
         // Remove from running.
         self.running.write().remove(module.as_ref());
+        #[cfg(routinator_verif)]
+        verif_c37::point("removed");
     }
 
     /// Loads the file for the given URI.
@@ -442,6 +458,161 @@ impl<'a> Run<'a> {
 }
 
 
+//------------ Verification hooks (C37) --------------------------------------
+//
+// Rendezvous points between the atomic steps of `Run::load_module`, an
+// event log of the fetches, and a way to run `load_module` on a bare rsync
+// run (via the public `Config` since this module is private).
+
+#[cfg(routinator_verif)]
+mod verif_c37 {
+    use std::collections::HashMap;
+    use std::sync::{Arc, Mutex as StdMutex};
+    use super::{Module, Mutex};
+
+    /// The mutex each thread (by name) last took out of `running`.
+    static MUTEXES: StdMutex<Option<HashMap<String, Arc<Mutex<()>>>>>
+        = StdMutex::new(None);
+
+    /// Every mutex any thread got since the last reset.
+    static KEEP: StdMutex<Vec<Arc<Mutex<()>>>> = StdMutex::new(Vec::new());
+
+    /// The log of events: (kind, thread name, module).
+    static EVENTS: StdMutex<Vec<(String, String, String)>>
+        = StdMutex::new(Vec::new());
+
+    fn thread_name() -> String {
+        std::thread::current().name().unwrap_or("").into()
+    }
+
+    /// A rendezvous point named after the step just taken and the thread.
+    pub fn point(step: &str) {
+        crate::verif::point(&format!(
+            "rsync.load_module.{}@{}", step, thread_name()
+        ));
+    }
+
+    /// Remembers the mutex the current thread got, then stops at a point.
+    ///
+    /// All mutexes are kept alive until `reset` so that their addresses
+    /// identify them.
+    pub fn got_mutex(mutex: &Arc<Mutex<()>>) {
+        KEEP.lock().unwrap().push(mutex.clone());
+        MUTEXES.lock().unwrap().get_or_insert_with(Default::default).insert(
+            thread_name(), mutex.clone()
+        );
+        point("got_mutex");
+    }
+
+    /// Logs the start or end of a fetch, then stops at a point.
+    pub fn fetch(what: &str, module: &Module) {
+        event(&format!("fetch_{what}"), &module.to_string());
+        crate::verif::count(&format!("rsync.fetch.{what}:{module}"));
+        point(if what == "start" { "fetching" } else { "fetched" });
+    }
+
+    /// Appends an event of the current thread to the log.
+    pub fn event(kind: &str, key: &str) {
+        EVENTS.lock().unwrap().push(
+            (kind.into(), thread_name(), key.into())
+        );
+    }
+
+    /// Returns the event log.
+    pub fn events() -> Vec<(String, String, String)> {
+        EVENTS.lock().unwrap().clone()
+    }
+
+    /// Forgets mutexes and events.
+    pub fn reset() {
+        *MUTEXES.lock().unwrap() = None;
+        KEEP.lock().unwrap().clear();
+        EVENTS.lock().unwrap().clear();
+    }
+
+    /// The identity of the mutex the named thread got last and whether it
+    /// is locked right now (the `Debug` impl of a std mutex does `try_lock`).
+    pub fn mutex_of(thread: &str) -> Option<(usize, bool)> {
+        MUTEXES.lock().unwrap().as_ref()?.get(thread).map(|mutex| {
+            (
+                Arc::as_ptr(mutex) as usize,
+                format!("{:?}", mutex).contains("<locked>")
+            )
+        })
+    }
+}
+
+/// A bare run of a new rsync collector.
+#[cfg(routinator_verif)]
+pub struct VerifC37Run(Run<'static>);
+
+#[cfg(routinator_verif)]
+impl VerifC37Run {
+    /// The real `Run::load_module`.
+    pub fn load(&self, uri: &uri::Rsync) {
+        self.0.load_module(uri)
+    }
+
+    /// The modules in `updated`, sorted.
+    pub fn updated(&self) -> Vec<String> {
+        let mut res: Vec<_> = self.0.updated.read().iter().map(|m| {
+            m.to_string()
+        }).collect();
+        res.sort();
+        res
+    }
+
+    /// The modules in `running` with the identity of their mutex and
+    /// whether it is locked, sorted.
+    pub fn running(&self) -> Vec<(String, usize, bool)> {
+        let mut res: Vec<_> = self.0.running.read().iter().map(|(k, v)| {
+            (
+                k.to_string(), Arc::as_ptr(v) as usize,
+                format!("{:?}", v).contains("<locked>")
+            )
+        }).collect();
+        res.sort();
+        res
+    }
+
+    /// The number of metrics entries (one per finished rsync invocation).
+    pub fn metrics_len(&self) -> usize {
+        self.0.metrics.lock().len()
+    }
+
+    pub fn event(&self, kind: &str, key: &str) {
+        verif_c37::event(kind, key)
+    }
+
+    pub fn events(&self) -> Vec<(String, String, String)> {
+        verif_c37::events()
+    }
+
+    pub fn mutex_of(&self, thread: &str) -> Option<(usize, bool)> {
+        verif_c37::mutex_of(thread)
+    }
+}
+
+#[cfg(routinator_verif)]
+impl Config {
+    /// Starts a new run of an rsync collector and forgets the events and
+    /// mutexes of earlier runs.
+    ///
+    /// The collector is created from the config of the first call and
+    /// kept for later calls (creating one runs the rsync command).
+    pub fn verif_c37_rsync_run(&self) -> Option<VerifC37Run> {
+        static COLLECTOR: std::sync::OnceLock<Option<Collector>>
+            = std::sync::OnceLock::new();
+        verif_c37::reset();
+        let collector = COLLECTOR.get_or_init(|| {
+            Collector::new(self).ok().flatten()
+        }).as_ref()?;
+        Some(VerifC37Run(collector.start()))
+    }
+}
+//------------ End of verification hooks (C37) -------------------------------
+
+
 //------------ RsyncCommand --------------------------------------------------
 
 /// The command to run rsync.
@@ -526,6 +697,8 @@ impl RsyncCommand {
         destination: &Path,
         mut log: LogBookWriter,
     ) -> RsyncModuleMetrics {
+        #[cfg(routinator_verif)]
+        if let Some(res) = verif_rpkigen::update(source, destination) { return res }
         let start = SystemTime::now();
         let status = self.command(
             source, destination, &mut log,
@@ -929,6 +1102,7 @@ impl ModuleSet {
 }
 
 
+
 //------------ Verification hooks (C30) --------------------------------------
 //
 // Inherent methods on the public `Config` so that they can be reached from
@@ -946,3 +1120,104 @@ impl Config {
         )
     }
 }
+
+
+//------------ Verification hooks (rpkigen) ----------------------------------
+// begin rpkigen hook (add-only; compiled only with --cfg routinator_verif)
+//
+// In-process stand-in for the rsync command, used by the verification
+// harness's repository generator (harness/src/rpkigen). It is only active
+// while the registry entry "rpkigen.inprocess_rsync" is set to 1; otherwise
+// `RsyncCommand::update` spawns the configured command as always.
+
+#[cfg(routinator_verif)]
+mod verif_rpkigen {
+    use std::{fs, io};
+    use std::io::Write;
+    use std::os::unix::process::ExitStatusExt;
+    use std::path::Path;
+    use std::process::ExitStatus;
+    use std::time::SystemTime;
+    use crate::metrics::RsyncModuleMetrics;
+    use super::Module;
+
+    /// Copies `<dir>/served/<host>/<module>/` over `destination`, which
+    /// must be `<dir>/cache/rsync/<host>/<module>`, like `rsync -rt --delete`
+    /// would, and appends `<host>/<module>/` to `<dir>/fetch.log`. A missing
+    /// source directory yields exit status 10 and leaves the destination
+    /// untouched (an unreachable server).
+    ///
+    /// Returns `None` if the hook is not active.
+    pub fn update(
+        source: &Module, destination: &Path
+    ) -> Option<RsyncModuleMetrics> {
+        if crate::verif::forced("rpkigen.inprocess_rsync") != Some(1) {
+            return None
+        }
+        let start = SystemTime::now();
+        let status = run(source, destination);
+        Some(RsyncModuleMetrics {
+            module: source.to_uri(),
+            status,
+            duration: SystemTime::now().duration_since(start),
+            log_book: None,
+        })
+    }
+
+    fn run(
+        source: &Module, destination: &Path
+    ) -> Result<ExitStatus, io::Error> {
+        fs::create_dir_all(destination)?;
+        let source = source.to_string();
+        let rel = source.strip_prefix("rsync://").ok_or_else(|| {
+            io::Error::other("source is not an rsync URI")
+        })?;
+        let dest = destination.display().to_string();
+        let pos = dest.find("/cache/rsync/").ok_or_else(|| {
+            io::Error::other("destination is not below <dir>/cache/rsync/")
+        })?;
+        let base = Path::new(&dest[..pos]);
+        if let Ok(mut file) = fs::OpenOptions::new().create(true).append(
+            true
+        ).open(base.join("fetch.log")) {
+            let _ = writeln!(file, "{rel}");
+        }
+        let from = base.join("served").join(rel);
+        if !from.is_dir() {
+            return Ok(ExitStatus::from_raw(10 << 8))
+        }
+        clear(destination)?;
+        copy(&from, destination)?;
+        Ok(ExitStatus::from_raw(0))
+    }
+
+    fn clear(dir: &Path) -> Result<(), io::Error> {
+        for entry in fs::read_dir(dir)? {
+            let path = entry?.path();
+            if path.is_dir() {
+                fs::remove_dir_all(&path)?;
+            }
+            else {
+                fs::remove_file(&path)?;
+            }
+        }
+        Ok(())
+    }
+
+    fn copy(from: &Path, to: &Path) -> Result<(), io::Error> {
+        fs::create_dir_all(to)?;
+        for entry in fs::read_dir(from)? {
+            let entry = entry?;
+            let (path, target) = (entry.path(), to.join(entry.file_name()));
+            if path.is_dir() {
+                copy(&path, &target)?;
+            }
+            else {
+                fs::copy(&path, &target)?;
+            }
+        }
+        Ok(())
+    }
+}
+
+// end rpkigen hook
